@@ -32,7 +32,7 @@ checks = {
     text="IOArg.Set (scalar, compound, byte array), Sizes/bitLen, IOArg.Parse on hex array literals with symbolic digits (incl. elements wider than 64 bits) and mpc.Result are executed symbolically; every bit-layout, agreement, minimal-size, inverse and purity assertion is an SMT obligation over all values. Two defects found this way were repaired (fix: commits a47b49e, a408df4).",
     ref="DESIGN.md C13", engine="gosymx"),
  "C14": dict(cat="other", tech="bounded symbolic execution of go/ssa + SMT (z3): symbolic gates and symbolic malformed byte tails of symbolic length",
-    text="MPCLC format only. Round trip Marshal/ParseMPCLC/Marshal on 3 signature shapes x 1..3 symbolic gates (byte-identical re-serialisation), and ParseMPCLC on a valid header followed by up to 14 (thorough 27) fully symbolic bytes of symbolic length with symbolic NumGates/NumWires: never panics, and an accepted circuit has inputs defined before use and all wires assigned. One defect found this way was repaired (fix: f84e94e).",
+    text="MPCLC format only. Round trip Marshal/ParseMPCLC/Marshal on 5 signature shapes (plain, array, struct with unnamed member, slice-typed arguments, struct with a slice member) x 1..3 symbolic gates (byte-identical re-serialisation), and ParseMPCLC on a valid header followed by up to 14 (thorough 27) fully symbolic bytes of symbolic length with symbolic NumGates/NumWires: never panics, and an accepted circuit has inputs defined before use and all wires assigned. One defect found this way was repaired (fix: f84e94e).",
     ref="DESIGN.md C14", engine="gosymx"),
  "C04": dict(cat="other", tech="symbolic transcript of the real garbler (go/ssa) + validity check of every 16-byte window pair at every byte offset (concrete interpretations / SMT)",
     text="Whole-circuit mode and the sha2pc Round-3 payload: the real Garbler's complete garbler->evaluator byte transcript (plus the OT-revealed labels), and every label-sized value the real sha2pc.GarblerRound3 puts into the Round-3 message (synthetic circuit, stub curve), are recorded symbolically (all randomness symbolic, AES uninterpreted) and every window pair / single window is decided: 'differs by R for all randomness' = leak. Includes a 520-input-bit session (beyond the label batch size). One genuine defect is reported as a known finding (sha2pc OutputHints carry both labels of every output wire). Streaming mode is outside this check.",
